@@ -408,11 +408,9 @@ func (d *DNSFilter) refreshFiltersIntl(block, allow, force bool) (int, bool) {
 		toUpd = append(toUpd, toUpdAl...)
 		isNetErr = isNetErr || isNetErrAl
 	}
-	if isNetErr {
-		return 0, true
-	}
-
 	if updNum != 0 {
+		// Apply the updated filters even if all the filters of the other kind
+		// have failed to update, since their files have already been replaced.
 		d.EnableFilters(false)
 
 		for i := range lists {
@@ -428,6 +426,10 @@ func (d *DNSFilter) refreshFiltersIntl(block, allow, force bool) (int, bool) {
 				log.Debug("filtering: removing old filter file %q: %s", p, err)
 			}
 		}
+	}
+
+	if isNetErr {
+		return 0, true
 	}
 
 	return updNum, false
